@@ -502,6 +502,57 @@ carquet_status_t carquet_offset_index_serialize(
  */
 
 /**
+ * Compare two PLAIN-encoded values in the order of their physical type.
+ * Numeric types are little-endian, so comparing their bytes with memcmp
+ * does not give the numeric order; byte arrays compare lexicographically
+ * (unsigned), a proper prefix sorting first. A numeric value of the wrong
+ * size cannot be ordered: it is reported as equal, which never prunes.
+ */
+static int compare_index_values(carquet_physical_type_t type,
+                                const void* a, int32_t a_len,
+                                const void* b, int32_t b_len) {
+    switch (type) {
+        case CARQUET_PHYSICAL_BOOLEAN: {
+            if (a_len < 1 || b_len < 1) return 0;
+            uint8_t va = *(const uint8_t*)a, vb = *(const uint8_t*)b;
+            return (va > vb) - (va < vb);
+        }
+        case CARQUET_PHYSICAL_INT32: {
+            if (a_len != 4 || b_len != 4) return 0;
+            int32_t va, vb;
+            memcpy(&va, a, 4); memcpy(&vb, b, 4);
+            return (va > vb) - (va < vb);
+        }
+        case CARQUET_PHYSICAL_INT64: {
+            if (a_len != 8 || b_len != 8) return 0;
+            int64_t va, vb;
+            memcpy(&va, a, 8); memcpy(&vb, b, 8);
+            return (va > vb) - (va < vb);
+        }
+        case CARQUET_PHYSICAL_FLOAT: {
+            if (a_len != 4 || b_len != 4) return 0;
+            float va, vb;
+            memcpy(&va, a, 4); memcpy(&vb, b, 4);
+            if (va != va || vb != vb) return 0;  /* NaN is unordered */
+            return (va > vb) - (va < vb);
+        }
+        case CARQUET_PHYSICAL_DOUBLE: {
+            if (a_len != 8 || b_len != 8) return 0;
+            double va, vb;
+            memcpy(&va, a, 8); memcpy(&vb, b, 8);
+            if (va != va || vb != vb) return 0;  /* NaN is unordered */
+            return (va > vb) - (va < vb);
+        }
+        default: {
+            int32_t n = a_len < b_len ? a_len : b_len;
+            int cmp = n > 0 ? memcmp(a, b, (size_t)n) : 0;
+            if (cmp != 0) return cmp;
+            return (a_len > b_len) - (a_len < b_len);
+        }
+    }
+}
+
+/**
  * Check if a page might contain values in the given range.
  *
  * @param builder Column index builder
@@ -534,10 +585,10 @@ carquet_status_t carquet_column_index_page_might_match(
 
     /* If query max < page min, no match */
     if (max_value && builder->min_values[page_idx]) {
-        int cmp = memcmp(max_value, builder->min_values[page_idx],
-                         value_len < builder->min_value_lens[page_idx] ?
-                         value_len : builder->min_value_lens[page_idx]);
-        if (cmp < 0 || (cmp == 0 && value_len < builder->min_value_lens[page_idx])) {
+        int cmp = compare_index_values(builder->type,
+            max_value, value_len,
+            builder->min_values[page_idx], builder->min_value_lens[page_idx]);
+        if (cmp < 0) {
             *might_match = false;
             return CARQUET_OK;
         }
@@ -545,10 +596,10 @@ carquet_status_t carquet_column_index_page_might_match(
 
     /* If query min > page max, no match */
     if (min_value && builder->max_values[page_idx]) {
-        int cmp = memcmp(min_value, builder->max_values[page_idx],
-                         value_len < builder->max_value_lens[page_idx] ?
-                         value_len : builder->max_value_lens[page_idx]);
-        if (cmp > 0 || (cmp == 0 && value_len > builder->max_value_lens[page_idx])) {
+        int cmp = compare_index_values(builder->type,
+            min_value, value_len,
+            builder->max_values[page_idx], builder->max_value_lens[page_idx]);
+        if (cmp > 0) {
             *might_match = false;
             return CARQUET_OK;
         }
